@@ -445,6 +445,41 @@ k_oscore(void) {
   cs_pump(&S, 400, 120000);
 }
 
+/* K14: resource discovery with a listing that needs a block-wise response (libcoap builds the listing, hands it to the large
+ * response machinery and answers the follow-up block requests itself) */
+static void
+k_wellknown(void) {
+  int keep = inject_on;
+  inject_on = 0; /* the extra resources are part of the set-up, not of the operation under test */
+  for (int i = 0; i < 8; i++) {
+    char name[24];
+    snprintf(name, sizeof name, "sensors/room%d/temp", i);
+    /* the path string must outlive the resource: the resource owns a copy */
+    coap_str_const_t *own = coap_new_str_const((const uint8_t *)name, strlen(name));
+    coap_resource_t *r = own ? coap_resource_init(own, COAP_RESOURCE_FLAGS_RELEASE_URI) : NULL;
+    if (!r)
+      continue;
+    coap_add_attr(r, coap_make_str_const("rt"), coap_make_str_const("\"temperature-c\""), 0);
+    coap_add_attr(r, coap_make_str_const("if"), coap_make_str_const("\"sensor\""), 0);
+    coap_register_request_handler(r, COAP_REQUEST_GET, cs_hnd_small);
+    coap_add_resource(S.sc, r);
+  }
+  inject_on = keep;
+  for (int round = 0; round < 2; round++) {
+    coap_pdu_t *p = coap_new_pdu(COAP_MESSAGE_CON, COAP_REQUEST_CODE_GET, S.sess);
+    if (!p)
+      continue;
+    uint8_t tok = (uint8_t)(0xE1 + round), b2 = 0x02; /* second round: the client asks for 64-byte blocks itself */
+    if (!coap_add_token(p, 1, &tok) || !coap_add_option(p, COAP_OPTION_URI_PATH, 11, (const uint8_t *)".well-known") ||
+        !coap_add_option(p, COAP_OPTION_URI_PATH, 4, (const uint8_t *)"core") || (round && !coap_add_option(p, COAP_OPTION_BLOCK2, 1, &b2))) {
+      coap_delete_pdu(p);
+      continue;
+    }
+    coap_send(S.sess, p);
+    cs_pump(&S, 600, 120000);
+  }
+}
+
 typedef void (*scn_fn)(void);
 static struct {
   const char *name;
@@ -452,7 +487,7 @@ static struct {
   int setup_injected; /* allocation failures also during context / endpoint / session / resource set-up */
 } K[] = {{"K1-get", k_get, 0},       {"K2-async", k_async, 0}, {"K3-block1", k_block1, 0}, {"K4-block2", k_block2, 0},
          {"K5-observe", k_observe, 0}, {"K7-uri", k_uri, 0},     {"K8-tcp", k_tcp, 0},       {"K9-ws", k_ws, 0},
-         {"K10-setup", k_setup, 1},   {"K11-rawblock1-nosize", k_rawblock1, 0}, {"K12-rawblock2-nosize", k_rawblock2, 0}, {"K13-oscore", k_oscore, 0}};
+         {"K10-setup", k_setup, 1},   {"K11-rawblock1-nosize", k_rawblock1, 0}, {"K12-rawblock2-nosize", k_rawblock2, 0}, {"K13-oscore", k_oscore, 0}, {"K14-wellknown", k_wellknown, 0}};
 #define NK ((int)(sizeof K / sizeof K[0]))
 
 static void
@@ -522,6 +557,9 @@ run(void *arg) {
     case 11:
       good = S.resp_2xx >= 4 && S.notifications >= 2;
       break;
+    case 12:
+      good = S.resp_2xx >= 4 && S.max_len > 400; /* two listings + the canaries; the listing is > 400 bytes */
+      break;
     default:
       break;
     }
@@ -570,7 +608,7 @@ main(int argc, char **argv) {
     snprintf(names[i], sizeof names[i], "c18:%s:B=%d", cfgs[i].name, cfgs[i].bound);
   vx_ev_rule("catalogue of scenarios (request/response, async separate response, Block1, Block2, observe register+notify+cancel, URI/optlist "
              "helpers + .well-known/core, TCP session with CSM, WebSocket upgrade, set-up/tear-down extras, Block1 upload from / Block2 download from a raw peer that sends no Size1 / Size2, OSCORE server + client session with a protected GET, observe registration and notification) on real client+server contexts; every "
-             "call of coap_malloc_type / coap_realloc_type is a choice point: bound 1 = each single index k fails, bound 2 = every pair (quick: K1, K3, K4, K5, K11, K12; thorough: every scenario); "
+             "call of coap_malloc_type / coap_realloc_type is a choice point: bound 1 = each single index k fails, bound 2 = every pair (quick: K1, K3, K4, K5, K11, K12; thorough: every scenario); K14 = resource discovery with a block-wise listing; after the scenario a canary exchange on a fresh session and one on the scenario's own session; "
              "non-trivial = a failure was injected; distinct = distinct observation logs (allocation index + outcome counters)");
   vx_ev_assumption("only allocations through libcoap's funnel fail; GnuTLS / uthash raw malloc are outside (as the property's anchor says)");
   vx_ev_assumption("after the faulted scenario the applications continue with memory available: canary = GET /r on a fresh UDP session");
